@@ -5,6 +5,7 @@ locals bound to such expressions).  Nothing of the library is executed; an expre
 boolean combination of atoms makes the evaluation give up (Unknown).
 """
 import ast
+import copy
 import itertools
 
 
@@ -12,13 +13,43 @@ class Unknown(Exception):
     pass
 
 
+class AstVal:
+    """An expression kept symbolic (an operand such as `self.p1`): only atoms can look at it."""
+
+    def __init__(self, expr):
+        self.expr = expr
+
+
+class _Subst(ast.NodeTransformer):
+    def __init__(self, env):
+        self.env = env
+
+    def visit_Name(self, node):
+        v = self.env.get(node.id)
+        if isinstance(v, AstVal):
+            return copy.deepcopy(v.expr)
+        return node
+
+
+def _value(e, env, atom_of, asg):
+    """Value of e, or the expression itself (symbolic) when it is not a boolean/int/list combination of atoms."""
+    try:
+        return _eval(e, env, atom_of, asg)
+    except Unknown:
+        return AstVal(_Subst(env).visit(copy.deepcopy(e)))
+
+
 def _eval(e, env, atom_of, asg):
     k = atom_of(e)
+    if k is None and any(isinstance(v, AstVal) for v in env.values()):
+        k = atom_of(_Subst(env).visit(copy.deepcopy(e)))
     if k is not None:
         return asg[k]
-    if isinstance(e, ast.Constant) and isinstance(e.value, bool):
+    if isinstance(e, ast.Constant) and isinstance(e.value, (bool, int)):
         return e.value
     if isinstance(e, ast.Name) and e.id in env:
+        if isinstance(env[e.id], AstVal):
+            raise Unknown(ast.unparse(e))
         return env[e.id]
     if isinstance(e, ast.BoolOp):
         if isinstance(e.op, ast.And):
@@ -38,6 +69,40 @@ def _eval(e, env, atom_of, asg):
         return not _eval(e.operand, env, atom_of, asg)
     if isinstance(e, ast.IfExp):
         return _eval(e.body if _eval(e.test, env, atom_of, asg) else e.orelse, env, atom_of, asg)
+    if isinstance(e, (ast.List, ast.Tuple)):
+        return [_value(x, env, atom_of, asg) for x in e.elts]
+    if isinstance(e, ast.Compare) and len(e.ops) == 1:
+        l, r = _eval(e.left, env, atom_of, asg), _eval(e.comparators[0], env, atom_of, asg)
+        if all(isinstance(x, (bool, int)) for x in (l, r)):
+            op = e.ops[0]
+            table = {ast.Gt: l > r, ast.GtE: l >= r, ast.Lt: l < r, ast.LtE: l <= r, ast.Eq: l == r, ast.NotEq: l != r}
+            if type(op) in table:
+                return table[type(op)]
+    if isinstance(e, ast.Call) and isinstance(e.func, ast.Name) and not e.keywords:
+        f = e.func.id
+        if f == "len" and len(e.args) == 1:
+            v = _eval(e.args[0], env, atom_of, asg)
+            if isinstance(v, list):
+                return len(v)
+        if f == "bool" and len(e.args) == 1:
+            return bool(_eval(e.args[0], env, atom_of, asg))
+        if f in ("all", "any") and len(e.args) == 1:
+            a = e.args[0]
+            if isinstance(a, (ast.GeneratorExp, ast.ListComp)) and len(a.generators) == 1 and isinstance(a.generators[0].target, ast.Name):
+                g = a.generators[0]
+                seq = _eval(g.iter, env, atom_of, asg)
+                if isinstance(seq, list):
+                    outs = []
+                    for item in seq:
+                        env2 = dict(env)
+                        env2[g.target.id] = item
+                        if all(_eval(c, env2, atom_of, asg) for c in g.ifs):
+                            outs.append(bool(_eval(a.elt, env2, atom_of, asg)))
+                    return all(outs) if f == "all" else any(outs)
+            else:
+                seq = _eval(a, env, atom_of, asg)
+                if isinstance(seq, list) and all(isinstance(x, (bool, int)) for x in seq):
+                    return all(seq) if f == "all" else any(seq)
     raise Unknown(ast.unparse(e))
 
 
@@ -58,12 +123,29 @@ def _run(body, env, atom_of, asg):
         if isinstance(st, ast.Assign) and len(st.targets) == 1:
             t = st.targets[0]
             if isinstance(t, ast.Name):
-                env[t.id] = _eval(st.value, env, atom_of, asg)
+                env[t.id] = _value(st.value, env, atom_of, asg)
                 continue
             if isinstance(t, ast.Tuple) and isinstance(st.value, ast.Tuple) and len(t.elts) == len(st.value.elts) and all(isinstance(x, ast.Name) for x in t.elts):
                 vals = [_eval(v, env, atom_of, asg) for v in st.value.elts]
                 for x, v in zip(t.elts, vals):
                     env[x.id] = v
+                continue
+        if isinstance(st, ast.AnnAssign) and isinstance(st.target, ast.Name) and st.value is not None:
+            env[st.target.id] = _eval(st.value, env, atom_of, asg)
+            continue
+        if isinstance(st, ast.AugAssign) and isinstance(st.target, ast.Name) and isinstance(st.op, ast.Add) and isinstance(env.get(st.target.id), int):
+            env[st.target.id] = env[st.target.id] + _eval(st.value, env, atom_of, asg)
+            continue
+        if isinstance(st, ast.Expr) and isinstance(st.value, ast.Call) and isinstance(st.value.func, ast.Attribute) and st.value.func.attr == "append" \
+                and isinstance(st.value.func.value, ast.Name) and isinstance(env.get(st.value.func.value.id), list) and len(st.value.args) == 1:
+            env[st.value.func.value.id].append(_value(st.value.args[0], env, atom_of, asg))
+            continue
+        if isinstance(st, ast.For) and isinstance(st.target, ast.Name) and not st.orelse:
+            seq = _eval(st.iter, env, atom_of, asg)
+            if isinstance(seq, list):
+                for item in list(seq):
+                    env[st.target.id] = item
+                    _run(st.body, env, atom_of, asg)
                 continue
         if isinstance(st, ast.Pass):
             continue
